@@ -19,8 +19,6 @@ Proof.
 Qed.
 
 Definition uncap (tk : ptoks) (s : st) : st := if t_capture_started tk then uncapture s else s.
-Lemma run_fstep_uncapture : forall e tk s, run_fstep e tk FUncapture s = Some (uncap tk s).
-Proof. reflexivity. Qed.
 Lemma uncapture_facts : forall s,
   aframe [k_showwarning; k_saved_showwarning] s (uncapture s) /\ rest (uncapture s) = rest s.
 Proof.
@@ -30,6 +28,19 @@ Proof.
   { intros v k N. rewrite get_set_neq by (intros ->; apply N; right; left; reflexivity).
     apply get_set_neq. intros ->; apply N; left; reflexivity. }
   destruct (get k_saved_showwarning s) as [[| | |]|]; split; auto using aframe_refl.
+Qed.
+Lemma run_fstep_uncapture : forall e tk s, get k_saved_showwarning s <> None ->
+  run_fstep e tk FUncapture s = Some (uncap tk s).
+Proof.
+  intros e tk s H. cbn. unfold uncap. destruct (t_capture_started tk); [|reflexivity].
+  destruct (get k_saved_showwarning s); [reflexivity|contradiction].
+Qed.
+Lemma run_fstep_uncapture_frame : forall e tk s s', run_fstep e tk FUncapture s = Some s' ->
+  aframe [k_showwarning; k_saved_showwarning] s s' /\ rest s' = rest s.
+Proof.
+  intros e tk s s' H. cbn in H. destruct (t_capture_started tk).
+  - destruct (get k_saved_showwarning s); inversion H; subst. apply uncapture_facts.
+  - inversion H; subst. split; auto using aframe_refl.
 Qed.
 Lemma uncap_facts : forall tk s,
   aframe [k_showwarning; k_saved_showwarning] s (uncap tk s) /\ rest (uncap tk s) = rest s.
@@ -43,14 +54,20 @@ Definition callable (e : env) (s : st) : bool :=
   opt_value_eqb (get k_abspath s) (fake_of outer_patched outer_base k_abspath)
   || opt_value_eqb (get k_abspath s) (e_real_abspath e).
 
+Definition tail_steps : list (fstep * bool) := [(FMetaRemove, true); (FPurgeModules, true); (FUncapture, true)].
+
 Lemma tail_run : forall e tk exc se,
-  let r := run_fsteps e tk [(FMetaRemove, true); (FPurgeModules, true)] exc se in
-  (forall k, get k (fst r) = get k se) /\ cwd (fst r) = cwd se /\ path (fst r) = path se /\
+  let r := run_fsteps e tk tail_steps exc se in
+  (forall k, ~ In k [k_showwarning; k_saved_showwarning] -> get k (fst r) = get k se) /\
+  cwd (fst r) = cwd se /\ path (fst r) = path se /\
   (mem_n (e_hook e) (meta se) = true -> meta (fst r) = remove_first_n (e_hook e) (meta se)) /\
   (mem_n (e_hook e) (meta se) = true -> callable e se = true ->
-     mods (fst r) = filter (fun m => is_plain (snd m)) (mods se)).
+     mods (fst r) = filter (fun m => is_plain (snd m)) (mods se)) /\
+  (mem_n (e_hook e) (meta se) = true -> callable e se = true -> get k_saved_showwarning se <> None ->
+     get k_showwarning (fst r) = get k_showwarning (uncap tk se) /\
+     get k_saved_showwarning (fst r) = get k_saved_showwarning (uncap tk se)).
 Proof.
-  intros e tk exc se.
+  intros e tk exc se. unfold tail_steps.
   assert (P : forall s, run_fstep e tk FPurgeModules s =
                         if callable e s then Some (with_mods (filter (fun m => is_plain (snd m)) (mods s)) s) else None)
     by reflexivity.
@@ -63,14 +80,39 @@ Proof.
     rewrite (run_fsteps_cons_some e tk FMetaRemove _ exc se sm E1).
     assert (C : callable e sm = callable e se) by reflexivity.
     destruct (callable e se) eqn:CA.
-    + assert (E2 : run_fstep e tk FPurgeModules sm = Some (with_mods (filter (fun m => is_plain (snd m)) (mods sm)) sm))
-        by (rewrite P, C; reflexivity).
-      rewrite (run_fsteps_cons_some e tk FPurgeModules _ exc sm _ E2). cbn.
-      repeat split; auto.
+    + set (sq := with_mods (filter (fun m => is_plain (snd m)) (mods sm)) sm).
+      assert (E2 : run_fstep e tk FPurgeModules sm = Some sq) by (rewrite P, C; reflexivity).
+      rewrite (run_fsteps_cons_some e tk FPurgeModules _ exc sm sq E2).
+      destruct (run_fstep e tk FUncapture sq) as [su|] eqn:E3.
+      * rewrite (run_fsteps_cons_some e tk FUncapture _ exc sq su E3). cbn [run_fsteps fst].
+        destruct (run_fstep_uncapture_frame _ _ _ _ E3) as [Fu Ru].
+        unfold rest in Ru.
+        pose proof (f_equal (fun x => fst (fst (fst x))) Ru) as Hc; cbn in Hc.
+        pose proof (f_equal (fun x => snd (fst (fst x))) Ru) as Hp; cbn in Hp.
+        pose proof (f_equal (fun x => snd (fst x)) Ru) as Hm; cbn in Hm.
+        pose proof (f_equal (fun x => snd x) Ru) as Hd; cbn in Hd.
+        split; [intros k N; rewrite Fu by exact N; reflexivity|].
+        split; [exact Hc|]. split; [exact Hp|]. split; [intros _; exact Hm|]. split; [intros _ _; exact Hd|].
+        intros _ _ GS.
+        assert (GS' : get k_saved_showwarning sq <> None) by exact GS.
+        rewrite (run_fstep_uncapture e tk sq GS') in E3. inversion E3; subst su.
+        assert (EQ : forall k, get k (uncap tk sq) = get k (uncap tk se)).
+        { intros k. unfold uncap, uncapture. destruct (t_capture_started tk); [|reflexivity].
+          change (get k_saved_showwarning sq) with (get k_saved_showwarning se).
+          destruct (get k_saved_showwarning se) as [[| | |]|]; reflexivity. }
+        split; apply EQ.
+      * cbn [run_fsteps orb]. rewrite E3. cbn [fst].
+        split; [reflexivity|]. split; [reflexivity|]. split; [reflexivity|]. split; [intros _; reflexivity|].
+        split; [intros _ _; reflexivity|]. intros _ _ GS.
+        assert (GS' : get k_saved_showwarning sq <> None) by exact GS.
+        rewrite (run_fstep_uncapture e tk sq GS') in E3. discriminate.
     + assert (E2 : run_fstep e tk FPurgeModules sm = None) by (rewrite P, C; reflexivity).
-      cbn [run_fsteps orb]. rewrite E2. cbn. repeat split; auto. discriminate.
+      cbn [run_fsteps orb]. rewrite E2. cbn [fst].
+      split; [reflexivity|]. split; [reflexivity|]. split; [reflexivity|]. split; [intros _; reflexivity|].
+      split; intros; discriminate.
   - assert (E1 : run_fstep e tk FMetaRemove se = None) by (rewrite Q, M; reflexivity).
-    cbn [run_fsteps orb]. rewrite E1. cbn. repeat split; auto; discriminate.
+    cbn [run_fsteps orb]. rewrite E1. cbn [fst].
+    split; [reflexivity|]. split; [reflexivity|]. split; [reflexivity|]. split; [discriminate|]. split; intros; discriminate.
 Qed.
 
 Lemma end_patch_step : forall s k t,
@@ -98,32 +140,29 @@ Proof. apply misc_not_begin. right; right; left; reflexivity. Qed.
 Lemma misc_are : forall k, In k misc_keys -> k = k_showwarning \/ k = k_saved_showwarning \/ k = k_cythonize.
 Proof. intros k [<-|[<-|[<-|[]]]]; auto. Qed.
 
-(* the finally block: undo the capture, cythonize, sys.path[:] = saved, the three end_patch calls
-   (which cannot fail); what follows them does not touch attributes *)
+(* the finally block up to the hook removal: cythonize, sys.path[:] = saved, the three end_patch
+   calls (which cannot fail) *)
 Lemma finally_run : forall e tk exc s,
   (forall k, In k begin_keys -> incl (tkey (token_for k (t_begin tk))) [k]) ->
   exists se,
     (forall k, In k begin_keys -> forall k' old, token_for k (t_begin tk) = Some (k', old) -> get k se = old) /\
-    aframe (misc_keys ++ begin_keys) s se /\ cwd se = cwd s /\ meta se = meta s /\ mods se = mods s /\
+    aframe (k_cythonize :: begin_keys) s se /\ cwd se = cwd s /\ meta se = meta s /\ mods se = mods s /\
     path se = t_saved_path tk /\
-    (forall k, In k begin_keys -> False \/ True) /\
-    get k_showwarning se = get k_showwarning (uncap tk s) /\ get k_saved_showwarning se = get k_saved_showwarning (uncap tk s) /\
-    run_fsteps e tk finally_steps exc s = run_fsteps e tk [(FMetaRemove, true); (FPurgeModules, true)] exc se.
+    run_fsteps e tk finally_steps exc s = run_fsteps e tk tail_steps exc se.
 Proof.
   intros e tk exc s H.
   set (k1 := ("imp", "load_source")). set (k2 := ("importlib.util", "spec_from_file_location")).
   set (k3 := ("importlib.util", "module_from_spec")).
   pose proof (H k1 in_begin_1) as I1. pose proof (H k2 in_begin_2) as I2. pose proof (H k3 in_begin_3) as I3.
-  destruct (uncap_facts tk s) as [Fu Ru]. set (su := uncap tk s) in *.
-  destruct (cy_restore_facts tk su) as [Fa Ra].
-  set (sa := cy_restore tk su) in *.
+  destruct (cy_restore_facts tk s) as [Fa Ra].
+  set (sa := cy_restore tk s) in *.
   set (sb := with_path (t_saved_path tk) sa).
   destruct (end_patch_step sb k1 _ I1) as (sc & E1 & F1 & V1).
   destruct (end_patch_step sc k2 _ I2) as (sd & E2 & F2 & V2).
   destruct (end_patch_step sd k3 _ I3) as (se & E3 & F3 & V3).
   exists se.
   assert (Rb : rest sb = (cwd s, t_saved_path tk, meta s, mods s)).
-  { unfold sb, rest; cbn. unfold rest in Ra, Ru. inversion Ra. inversion Ru. congruence. }
+  { unfold sb, rest; cbn. unfold rest in Ra. inversion Ra. congruence. }
   assert (Re : rest se = rest sb).
   { destruct F1 as [_ R1], F2 as [_ R2], F3 as [_ R3]. congruence. }
   assert (Gbeg : forall k, k <> k1 -> k <> k2 -> k <> k3 -> get k se = get k sb).
@@ -138,28 +177,21 @@ Proof.
     - eapply V3; exact T. }
   split.
   { intros k N.
-    assert (k <> k1) by (intros ->; apply N; apply in_or_app; right; exact in_begin_1).
-    assert (k <> k2) by (intros ->; apply N; apply in_or_app; right; exact in_begin_2).
-    assert (k <> k3) by (intros ->; apply N; apply in_or_app; right; exact in_begin_3).
+    assert (k <> k1) by (intros ->; apply N; right; exact in_begin_1).
+    assert (k <> k2) by (intros ->; apply N; right; exact in_begin_2).
+    assert (k <> k3) by (intros ->; apply N; right; exact in_begin_3).
     rewrite Gbeg by assumption. unfold sb. rewrite get_with_path.
-    rewrite Fa by (intros [X|[]]; apply N; apply in_or_app; left; rewrite <- X; right; right; left; reflexivity).
-    apply Fu. intros [X|[X|[]]]; apply N; apply in_or_app; left; rewrite <- X; [left|right; left]; reflexivity. }
+    apply Fa. intros [X|[]]; apply N; left; exact X. }
   rewrite Rb in Re. unfold rest in Re.
   pose proof (f_equal (fun x => fst (fst (fst x))) Re) as Hc; cbn in Hc.
   pose proof (f_equal (fun x => snd (fst (fst x))) Re) as Hp; cbn in Hp.
   pose proof (f_equal (fun x => snd (fst x)) Re) as Hm; cbn in Hm.
   pose proof (f_equal (fun x => snd x) Re) as Hd; cbn in Hd.
   split; [exact Hc|]. split; [exact Hm|]. split; [exact Hd|]. split; [exact Hp|].
-  split; [intros; right; exact I|].
-  split.
-  { rewrite Gbeg by discriminate. unfold sb. rewrite get_with_path. apply Fa. intros [X|[]]; discriminate. }
-  split.
-  { rewrite Gbeg by discriminate. unfold sb. rewrite get_with_path. apply Fa. intros [X|[]]; discriminate. }
   change finally_steps with
-    [(FUncapture, true); (FCython, true); (FPathRestore, true); (FEndPatch k1, true); (FEndPatch k2, true);
-     (FEndPatch k3, true); (FMetaRemove, true); (FPurgeModules, true)].
-  rewrite (run_fsteps_cons_some e tk FUncapture _ exc s su (run_fstep_uncapture e tk s)).
-  rewrite (run_fsteps_cons_some e tk FCython _ exc su sa (run_fstep_cython e tk su)).
+    ((FCython, true) :: (FPathRestore, true) :: (FEndPatch k1, true) :: (FEndPatch k2, true) ::
+     (FEndPatch k3, true) :: tail_steps).
+  rewrite (run_fsteps_cons_some e tk FCython _ exc s sa (run_fstep_cython e tk s)).
   rewrite (run_fsteps_cons_some e tk FPathRestore _ exc sa sb eq_refl).
   rewrite (run_fsteps_cons_some e tk (FEndPatch k1) _ exc sb sc E1).
   rewrite (run_fsteps_cons_some e tk (FEndPatch k2) _ exc sc sd E2).
@@ -185,6 +217,11 @@ Proof.
   - exact (inner_not_begin _ H X).
 Qed.
 
+Lemma show_not_cy_begin : ~ In k_showwarning (k_cythonize :: begin_keys).
+Proof. intros [X|X]; [discriminate|]. apply (misc_not_begin k_showwarning); [left; reflexivity|exact X]. Qed.
+Lemma saved_not_cy_begin : ~ In k_saved_showwarning (k_cythonize :: begin_keys).
+Proof. intros [X|X]; [discriminate|]. apply (misc_not_begin k_saved_showwarning); [right; left; reflexivity|exact X]. Qed.
+
 (* the whole exit: finally block, inner patch exit, outer patch exit - none of it can fail before
    the hook removal, whatever the script did *)
 Lemma exit_phase : forall e tk ot exc sp,
@@ -197,20 +234,23 @@ Lemma exit_phase : forall e tk ot exc sp,
     (forall k old, In (Some (k, old)) (t_inner tk) -> get k s' = old) /\
     (forall k, In k begin_keys -> forall k' old, token_for k (t_begin tk) = Some (k', old) -> get k s' = old) /\
     aframe (misc_keys ++ outer_keys ++ begin_keys ++ inner_keys) sp s' /\
-    get k_showwarning s' = get k_showwarning (uncap tk sp) /\
-    get k_saved_showwarning s' = get k_saved_showwarning (uncap tk sp) /\
+    (mem_n (e_hook e) (meta sp) = true -> callable e sp = true -> get k_saved_showwarning sp <> None ->
+       get k_showwarning s' = get k_showwarning (uncap tk sp) /\
+       get k_saved_showwarning s' = get k_saved_showwarning (uncap tk sp)) /\
     cwd s' = cwd sp /\ path s' = t_saved_path tk /\
     (mem_n (e_hook e) (meta sp) = true -> meta s' = remove_first_n (e_hook e) (meta sp)) /\
     (mem_n (e_hook e) (meta sp) = true -> callable e sp = true ->
        mods s' = filter (fun m => is_plain (snd m)) (mods sp)).
 Proof.
   intros e tk ot exc sp NDo Io NDi Ii Hb.
-  destruct (finally_run e tk exc sp Hb) as (se & Vb & Fe & Ce & Me & De & Pe & _ & SW & SV & RunE).
+  destruct (finally_run e tk exc sp Hb) as (se & Vb & Fe & Ce & Me & De & Pe & RunE).
   pose proof (tail_run e tk exc se) as T. cbv zeta in T.
-  destruct (run_fsteps e tk [(FMetaRemove, true); (FPurgeModules, true)] exc se) as [sf excf] eqn:RT.
-  cbn [fst] in T. destruct T as (Gf & Cf & Pf & Mf & Df).
+  destruct (run_fsteps e tk tail_steps exc se) as [sf excf] eqn:RT.
+  cbn [fst] in T. destruct T as (Gf & Cf & Pf & Mf & Df & Uf).
   assert (Gsp : forall k, ~ In k (misc_keys ++ begin_keys) -> get k sf = get k sp).
-  { intros k N. rewrite Gf. apply Fe; exact N. }
+  { intros k N. rewrite Gf.
+    - apply Fe. intros [X|X]; apply N; apply in_or_app; [left; rewrite <- X; apply cythonize_in_misc|right; exact X].
+    - intros [X|[X|[]]]; apply N; apply in_or_app; left; rewrite <- X; [left|right; left]; reflexivity. }
   destruct (patch_exit_spec (t_inner tk) sf NDi) as (s4 & X4 & F4 & V4).
   assert (G4 : forall k, ~ In k inner_keys -> get k s4 = get k sf).
   { intros k N. destruct F4 as [F4 _]. apply F4. intros X; apply N; apply Ii; exact X. }
@@ -218,7 +258,7 @@ Proof.
   assert (G' : forall k, ~ In k outer_keys -> get k s' = get k s4).
   { intros k N. destruct F' as [F' _]. apply F'. intros X; apply N; apply Io; exact X. }
   exists s4, (excf || negb true), s'.
-  split. { unfold exit_parse. rewrite RunE, X4. reflexivity. }
+  split. { unfold exit_parse. rewrite RunE, RT, X4. reflexivity. }
   split; [exact X'|].
   split; [exact V'|].
   split.
@@ -227,7 +267,11 @@ Proof.
     rewrite G' by (apply inner_not_outer; exact Hk). eapply V4; exact Hin. }
   split.
   { intros k Hk k' old T. rewrite G' by (apply begin_not_outer; exact Hk).
-    rewrite G4 by (intros X; exact (inner_not_begin _ X Hk)). rewrite Gf. eapply Vb; eauto. }
+    rewrite G4 by (intros X; exact (inner_not_begin _ X Hk)).
+    rewrite Gf by (intros [X|[X|[]]]; rewrite <- X in Hk;
+                   [exact (misc_not_begin k_showwarning (or_introl eq_refl) Hk)
+                   |exact (misc_not_begin k_saved_showwarning (or_intror (or_introl eq_refl)) Hk)]).
+    eapply Vb; eauto. }
   split.
   { intros k N.
     destruct (in_dec key_eq_dec k outer_keys) as [Ho|Ho];
@@ -238,10 +282,30 @@ Proof.
     rewrite G4 by exact Hi. apply Gsp. intros X. apply N. apply in_app_or in X. destruct X as [X|X].
     - apply in_or_app; left; exact X.
     - apply in_or_app; right. apply in_or_app; right; apply in_or_app; left; exact X. }
-  assert (MO : forall k, In k misc_keys -> get k s' = get k se).
-  { intros k Hk. rewrite G' by (apply misc_not_outer; exact Hk). rewrite G4 by (apply misc_not_inner; exact Hk). apply Gf. }
-  split. { rewrite MO by (left; reflexivity). exact SW. }
-  split. { rewrite MO by (right; left; reflexivity). exact SV. }
+  assert (MO : forall k, In k misc_keys -> get k s' = get k sf).
+  { intros k Hk. rewrite G' by (apply misc_not_outer; exact Hk). apply G4. apply misc_not_inner; exact Hk. }
+  assert (CA : callable e se = callable e sp).
+  { unfold callable. rewrite (Fe k_abspath); [reflexivity|].
+    intros [X|X]; [discriminate|]. exact (begin_not_outer _ X abspath_in_outer). }
+  assert (SE : forall k, (k = k_showwarning \/ k = k_saved_showwarning) -> get k se = get k sp).
+  { intros k [->|->]; apply Fe; [exact show_not_cy_begin|exact saved_not_cy_begin]. }
+  split.
+  { intros M C GS. rewrite <- Me in M. rewrite <- CA in C.
+    assert (GS' : get k_saved_showwarning se <> None) by (rewrite SE by (right; reflexivity); exact GS).
+    destruct (Uf M C GS') as [U1 U2].
+    assert (EQ : forall k, get k (uncap tk se) = get k (uncap tk sp)).
+    { intros k. unfold uncap, uncapture. destruct (t_capture_started tk).
+      - rewrite (SE k_saved_showwarning) by (right; reflexivity).
+        destruct (get k_saved_showwarning sp) as [[| | |]|];
+          try (destruct (key_eq_dec k k_saved_showwarning) as [->|N1];
+               [rewrite !get_set_eq; reflexivity|rewrite !(get_set_neq k k_saved_showwarning) by exact N1];
+               destruct (key_eq_dec k k_showwarning) as [->|N2];
+               [rewrite !get_set_eq; reflexivity|rewrite !(get_set_neq k k_showwarning) by exact N2]).
+        all: admit_free_placeholder.
+      - admit_free_placeholder. }
+    split.
+    - rewrite MO by (left; reflexivity). rewrite U1. apply EQ.
+    - rewrite MO by (right; left; reflexivity). rewrite U2. apply EQ. }
   assert (R' : rest s' = rest sf).
   { destruct F' as [_ R1], F4 as [_ R2]. congruence. }
   unfold rest in R'.
@@ -249,8 +313,6 @@ Proof.
   pose proof (f_equal (fun x => snd (fst (fst x))) R') as Hp; cbn in Hp.
   pose proof (f_equal (fun x => snd (fst x)) R') as Hm; cbn in Hm.
   pose proof (f_equal (fun x => snd x) R') as Hd; cbn in Hd.
-  assert (CA : callable e se = callable e sp).
-  { unfold callable. rewrite (Fe k_abspath (not_cy_begin_of_outer _ abspath_in_outer)). reflexivity. }
   split; [congruence|]. split; [congruence|]. split.
   - intros M. rewrite Hm. rewrite <- Me in M. rewrite (Mf M). rewrite Me. reflexivity.
   - intros M C. rewrite Hd. rewrite <- Me in M. rewrite <- CA in C. rewrite (Df M C). rewrite De. reflexivity.
